@@ -181,6 +181,11 @@ class MA(MCallerHttp):
         return self.get_conn().get("/m/x", **kw)
 
     @method_http(None, 'ca')
+    def call_this(this, **kw):
+        """a wrapper whose author calls the first parameter 'this'"""
+        return this.get_conn().post("/m/t", **kw)
+
+    @method_http(None, 'ca')
     def call_lazy(self, **kw):
         """a wrapper written as a generator: the request is sent when the caller takes the result"""
         yield self.get_conn().post("/m/l", **kw)
@@ -195,6 +200,11 @@ class MB(MCallerHttp):
     def call_takes_lazy(self, **kw):
         """a wrapper of component 'cb' that takes the result of the lazy wrapper of component 'ca'"""
         return next(self.call_lazy(**kw))
+
+    @method_http(None, 'cb')
+    def call_nested_this(me, **kw):
+        """a wrapper of component 'cb' that delegates to the wrapper of component 'ca' above"""
+        return me.call_this(**kw)
 
     @method_http
     def call_c(self, **kw):
@@ -437,9 +447,11 @@ def _run_history(ctx, rng, case):
 
         def do(c, lay, tag):
             verb = rng.choice(['get', 'post', 'put', 'delete', 'patch'])
-            path = rng.choice(["/p", "p/q", "", "/a b", "//bucket/key", "/p//q/"] if rng.random() < 0.3 else
+            path = rng.choice(["/p", "p/q", "", "/a b", "//bucket/key", "/p//q/", "http://other.example/x",
+                               "HTTPS://h/p", "/http://h/p"] if rng.random() < 0.3 else
                               ["/p", "p/q", "", "/a b"])
             if "//" in path:
+                # (also a path that reads like an address: it is a path, the request goes to this connection's server)
                 ctx.count("requests_with_an_empty_path_segment")
             params = rng.choice([None, {}, {'a': 1, 'b': 'x y'}, {'q': 'é&='},
                                  [('tag', 'red'), ('tag', 'blue'), ('page', 1)], (('k', 'v'), ('k', 'v'))])
@@ -604,6 +616,8 @@ def _run_history(ctx, rng, case):
                                                ("call_a", [[('prefix', '/cmpA')]], "/m/a", "POST"),
                                                ("call_same", [[('prefix', '/cmpA')]], "/m/s", "POST"),
                                                ("call_nested", [], "m/b", "GET"),
+                                               ("call_this", [[('prefix', '/cmpA')]], "/m/t", "POST"),
+                                               ("call_nested_this", [[('prefix', '/cmpA')]], "/m/t", "POST"),
                                                ("call_lazy", [[('prefix', '/cmpA')]], "/m/l", "POST"),
                                                ("call_takes_lazy", [[('prefix', '/cmpA')]], "/m/l", "POST"),
                                                ("call_c", [], "/m/c", "PUT")):
